@@ -92,6 +92,8 @@ def history_programs():
     # the same value compared with itself
     from .. import enum as _enum
     out += _enum.same_object_programs()
+    cf = _enum.cross_type_fused_programs()
+    out += cf[::3]
     # floats and integers: computed vs written
     out += ["[0.5 + 0.25 == 0.75, 0.75 == 0.5 + 0.25, 1.5 * 2.0 == 3.0, 6 * 7 == 42, 42 == 6 * 7, 0.0 == 0.0 * (0.0 - 1.0)]",
             "stel a = [1.5]; a[0] = a[0] + 1.0; [a[0] == 2.5, 2.5 == a[0]]"]
